@@ -166,7 +166,9 @@ class MemServer:
 
 
 SPELLED = [["unix:/tmp/mc.1.sock", "unix:/tmp/mc.2.sock", "/tmp/mc.3.sock"], ["cache-a", "cache-b:11212", ("10.0.0.1", 11211)],
-           ["[::1]:11311", "[::2]", ("10.0.0.2", 11211), "10.0.0.3"], [("10.0.0.4", 11211)]]
+           ["[::1]:11311", "[::2]", ("10.0.0.2", 11211), "10.0.0.3"], [("10.0.0.4", 11211)],
+           # TCP and UNIX servers in one client (their normalised forms are a tuple and a str)
+           [("10.0.0.5", 11211), "/tmp/mc.5.sock", "unix:/tmp/mc.6.sock", "cache-c:11213"]]
 
 
 def spelling_probe(ctx):
@@ -333,6 +335,14 @@ def search(ctx):
                 MemServer.down = downs
                 if found and found[-1]["size"] == len(hist):
                     break
+    except Exception as e:  # noqa  -- raised by a HashClient call (ignore_exc=True, scripted inner clients): an internal error
+        import traceback
+        tb = traceback.extract_tb(e.__traceback__)
+        inside = [f for f in tb if "pymemcache" in f.filename]
+        if not inside:
+            raise
+        found.append({"clause": "a HashClient call raised %s: %s (at %s:%d)" % (type(e).__name__, str(e)[:100], inside[-1].filename.split("/")[-1], inside[-1].lineno),
+                      "input": {"servers": repr(servers), "prefix": repr(prefix), "history": repr(hist)}, "size": len(hist)})
     finally:
         H.time = saved
     f2, n_sp = spelling_probe(ctx)
